@@ -1689,11 +1689,19 @@ class Compiler:
         else:
             render = "render_%s" % mangle(node.name)
         token_reset = template("__token = None")
-        return token_reset + template(
+        return token_reset + self._call_and_publish(template(
             "f(__stream, econtext.copy(), rcontext, "
             "__i18n_domain, __i18n_context, target_language)",
-            f=render) + \
-            template("econtext.update(rcontext)")
+            f=render))
+
+    def _call_and_publish(self, call):
+        # The global definitions made during the call become visible
+        # to the caller; the variables of the caller that merely share
+        # their name with an earlier global are left alone.
+        return template("__globals = rcontext.copy()") + call + template(
+            "econtext.update([(k, v) for (k, v) in rcontext.items() "
+            "if __globals.get(k, __marker) is not v])"
+        )
 
     def visit_DefineSlot(self, node):
         name = "__slot_%s" % mangle(node.name)
@@ -1823,11 +1831,10 @@ class Compiler:
             assignment +
             [TokenRef(node.expression.value)] +
             template("__m = __macro.include") +
-            template(
+            self._call_and_publish(template(
                 "__m(__stream, econtext.copy(), "
                 "rcontext, __i18n_domain, __i18n_context, target_language)"
-            ) +
-            template("econtext.update(rcontext)")
+            ))
         )
 
     def visit_Repeat(self, node):
